@@ -688,16 +688,18 @@ def main():
     mod = parse_module(text)
     E = Emit(mod, cuts); E.redirect = redirect
     done = {}; work = list(entries); order = []; callgraph = {}
-    while work:
-        n = work.pop()
-        if n in done: continue
-        if n not in mod.funcs or n in cuts:
-            done[n] = None; continue
-        E.need = []
-        hdr, code = emit_function(E, mod.funcs[n])
-        done[n] = (hdr, code); order.append(n)
-        callgraph[n] = set(E.need)
-        work.extend(E.need)
+    def drain():
+        while work:
+            n = work.pop()
+            if n in done: continue
+            if n not in mod.funcs or n in cuts:
+                done[n] = None; continue
+            E.need = []
+            hdr, code = emit_function(E, mod.funcs[n])
+            done[n] = (hdr, code); order.append(n)
+            callgraph[n] = set(E.need)
+            work.extend(E.need)
+    drain()
     print('#include "vf_rt.h"')
     print('\n'.join(E.typedefs)); E.typedefs = []
     ext = [n for n in done if done[n] is None]
@@ -723,7 +725,11 @@ def main():
             gdefs.append('extern %s;' % E.decl(t, 'g_' + n)); return
         E.need = []
         init = cinit(fe, p, t)
-        for d in list(E.need): emit_global(d)
+        for d in list(E.need):
+            if d in gl: emit_global(d)
+            elif d not in done: done[d] = None   # a function named only by an initializer (vtable slot): never called
+                                                 # directly; it gets an 'unmodelled' stub whose body is assert(false), so an
+                                                 # indirect call that does reach it is reported instead of silently skipped
         gdefs.append('%s = %s;' % (E.decl(t, 'g_' + n), init))
     def cinit(fe, p, t):
         k, v = p.peek()
@@ -754,8 +760,11 @@ def main():
                 p.expect(',')
             return '{ {' + ', '.join(parts) + '} }'
         return fe.const(p, t)
-    for n in list(done):
-        if done[n] is None and n in gl: emit_global(n)
+    while True:
+        for n in list(done):
+            if done[n] is None and n in gl: emit_global(n)
+        if not work: break
+        drain()   # functions reachable only through initializers; they may need further globals
     # anything referenced from functions
     for n in list(done):
         if done[n] is None and n not in gl and n not in mod.decls and n not in mod.funcs: pass
@@ -804,8 +813,8 @@ def main():
     meta['recursive'] = [fname(r) for r in rec]
     if metaf: json.dump(meta, open(metaf, 'w'), indent=1)
     print('\n'.join(E.typedefs))
-    print('\n'.join(gdefs))
     for n in order: print(done[n][0] + ';')
+    print('\n'.join(gdefs))
     for n in order: print(done[n][1])
 
 if __name__ == '__main__':
